@@ -409,3 +409,13 @@ func (d *Deps) mutators(v ssa.Value, fr *frame) {
 		}
 	}
 }
+
+// Visited reports whether the slice passed through the given value.
+func (d *Deps) Visited(v ssa.Value) bool {
+	for k := range d.seen {
+		if k.v == v {
+			return true
+		}
+	}
+	return false
+}
